@@ -44,6 +44,7 @@ pub fn check_total(ctx: &Ctx, ts: u32, reference: &[f64; 2], pkt: &[u8]) -> Chec
 /// a related packet was decoded on the same thread (timestamp and address differing from `t` in one bit each — a
 /// cached key or state indexed by part of them would be reused).
 pub fn check_trip_after_siblings(ctx: &Ctx, t: &Trip) -> Check {
+    check_trip(ctx, t)?;
     for i in 0..32u32 {
         for j in (0..=24u32).rev() {
             let mut sib = t.clone();
@@ -51,17 +52,26 @@ pub fn check_trip_after_siblings(ctx: &Ctx, t: &Trip) -> Check {
             if j < 24 {
                 sib.fields.address ^= 1 << j;
             }
-            let mut f = sib.fields;
-            f.lat19 = flarmenc::lat_field(sib.truth[0]);
-            f.lon20 = flarmenc::lon_field(sib.truth[1]);
-            let pkt = flarmenc::packet(&f, sib.ts, sib.trailer);
-            let _ = catch(|| Flarm::from_record(sib.ts, &sib.reference, &pkt));
+            // the sibling is itself a well-formed round trip: it is judged right after `t` (whose key a cache would
+            // still hold), and `t` right after the sibling
+            check_trip(ctx, &sib).map_err(|mut e| {
+                e.signature = format!("{}:after-related-packet", e.signature);
+                e.detail = format!("decoded right after the same fields with timestamp bit {i}{} flipped: {}", if j < 24 { format!(" and address bit {j}") } else { String::new() }, e.detail);
+                e.replay = {
+                    let mut r = trip_json(t);
+                    r["after_sibling"] = json!([i, j]);
+                    r
+                };
+                e
+            })?;
             check_trip(ctx, t).map_err(|mut e| {
                 e.signature = format!("{}:after-related-packet", e.signature);
                 e.detail = format!("after decoding the same fields with timestamp bit {i}{} flipped: {}", if j < 24 { format!(" and address bit {j}") } else { String::new() }, e.detail);
-                if let Value::Object(m) = &mut e.replay {
-                    m.insert("after_sibling".into(), json!([i, j]));
-                }
+                e.replay = {
+                    let mut r = trip_json(t);
+                    r["after_sibling"] = json!([i, j]);
+                    r
+                };
                 e
             })?;
         }
@@ -78,6 +88,15 @@ pub struct Trip {
     pub trailer: [u8; 2],
 }
 
+pub fn trip_json(t: &Trip) -> Value {
+    let mut f = t.fields;
+    f.lat19 = flarmenc::lat_field(t.truth[0]);
+    f.lon20 = flarmenc::lon_field(t.truth[1]);
+    let pkt = flarmenc::packet(&f, t.ts, t.trailer);
+    json!({"kind": "trip", "ts": t.ts, "reference": t.reference, "truth": t.truth, "packet": hex::encode(&pkt),
+        "fields": {"address": f.address, "magic": f.magic, "vs": f.vs, "stealth": f.stealth, "no_track": f.no_track, "gps": f.gps, "actype": f.actype, "alt": f.alt, "mult": f.mult, "ns": f.ns, "ew": f.ew, "spare0": f.spare0, "spare2": f.spare2}, "trailer": t.trailer})
+}
+
 /// (b) round trip through the independent encoder / encryptor
 pub fn check_trip(ctx: &Ctx, t: &Trip) -> Check {
     ctx.eval();
@@ -85,8 +104,7 @@ pub fn check_trip(ctx: &Ctx, t: &Trip) -> Check {
     f.lat19 = flarmenc::lat_field(t.truth[0]);
     f.lon20 = flarmenc::lon_field(t.truth[1]);
     let pkt = flarmenc::packet(&f, t.ts, t.trailer);
-    let rep = json!({"kind": "trip", "ts": t.ts, "reference": t.reference, "truth": t.truth, "packet": hex::encode(&pkt),
-        "fields": {"address": f.address, "magic": f.magic, "vs": f.vs, "stealth": f.stealth, "no_track": f.no_track, "gps": f.gps, "actype": f.actype, "alt": f.alt, "mult": f.mult, "ns": f.ns, "ew": f.ew, "spare0": f.spare0, "spare2": f.spare2}, "trailer": t.trailer});
+    let rep = trip_json(t);
     let fail = |sig: &str, d: String| Failure::new(format!("c15:trip:{sig}"), d, rep.clone());
     let r = catch(|| Flarm::from_record(t.ts, &t.reference, &pkt)).map_err(|p| fail("panic", p))?;
     let d = r.map_err(|e| fail("rejected", format!("a well-formed packet was rejected: {e}")))?;
